@@ -304,6 +304,12 @@ def fluxes(model):
     return names if names else [None]
 
 
+def inherited_1d_fluxes(model2d):
+    """names in the registry of an euler2d instance whose implementation is not one of the 2D class (inherited from the 1D base class)"""
+    own = set(_real["euler"].euler2d._numfluxdict.dict.values())
+    return sorted(k for k, fn in model2d._numfluxdict.dict.items() if fn not in own)
+
+
 def bc_names(model):
     return list(model.list_bc())
 
@@ -465,3 +471,13 @@ def same_bits(xs, ys):
     xs = xs if isinstance(xs, (list, tuple)) else [xs]
     ys = ys if isinstance(ys, (list, tuple)) else [ys]
     return len(xs) == len(ys) and all(np.shape(x) == np.shape(y) and np.array_equal(np.asarray(x, float), np.asarray(y, float), equal_nan=True) for x, y in zip(xs, ys))
+
+
+def huge_idx(n, k, nlet):
+    """letter assignment for very large meshes (not enumerated: three fixed non-periodic patterns), regenerated from (n, k, nlet) on replay"""
+    i = np.arange(n)
+    if k == 0:
+        return tuple(int(v) for v in (i * 7 + i // 5) % nlet)
+    if k == 1:
+        return tuple(int(v) for v in ((i * i) // 3 + i // 11) % nlet)
+    return tuple(int(v) for v in (i // max(n // 7, 1)) % nlet)
